@@ -338,6 +338,14 @@ class BondMaker:
                     continue
                 self.find_bonds_for_atoms_disjoint(value, value2)
 
+        # The order in which the boxes are visited depends on where the
+        # molecule sits in space; make the order of the bond lists depend on
+        # the order of the atoms in the input only.
+        index = {id(atom): i for i, atom in enumerate(atoms)}
+        for atom in atoms:
+            atom.bonded_atoms.sort(
+                key=lambda bonded: index.get(id(bonded), len(index)))
+
     @staticmethod
     def has_bond(atom1, atom2):
         """Look for bond between two atoms.
